@@ -196,6 +196,15 @@ func genLockedFile(g *gen) {
 		g.lfB("transform_via_edit", "Transform acquires its file through Edit(name)", len(lfCalls(fd.Body, "Edit")) == 1 && len(lfCalls(fd.Body, "OpenFile")) == 0)
 		g.lfB("transform_defers_close", "Transform defers f.Close()", lfHasDeferClose(fd))
 	}
+	// every convenience function that acquires a File and does not hand it to its caller must
+	// Close it on every path: `defer f.Close()` or an f.Close() call, at the top level of the
+	// body, before any statement that contains a return (the error check of the acquisition
+	// itself excepted)
+	for _, it := range []struct{ coq, fn string }{{"read_closes_on_every_path", "Read"}, {"write_closes_on_every_path", "Write"}, {"transform_closes_on_every_path", "Transform"}} {
+		if fd := lfFunc(g, lf, lfgo, "", it.fn); fd != nil {
+			g.lfB(it.coq, it.fn+" closes the File it acquired before any statement that can return (defer f.Close() / f.Close() right after the acquisition's error check)", lfClosesOnEveryPath(fd))
+		}
+	}
 	if fd := lfFunc(g, lf, lfgo, "File", "Close"); fd != nil {
 		g.lfB("close_calls_closefile", "File.Close calls closeFile", len(lfCalls(fd.Body, "closeFile")) == 1)
 	}
@@ -341,6 +350,81 @@ func lfExprText(g *gen, e ast.Expr) string {
 	var b strings.Builder
 	printer.Fprint(&b, g.fset, e)
 	return b.String()
+}
+
+// lfContainsReturn: does the statement contain a return of the enclosing function (function
+// literals do not count)?
+func lfContainsReturn(st ast.Stmt) bool {
+	found := false
+	ast.Inspect(st, func(n ast.Node) bool {
+		switch n.(type) {
+		case *ast.FuncLit:
+			return false
+		case *ast.ReturnStmt:
+			found = true
+		}
+		return true
+	})
+	return found
+}
+
+// lfClosesOnEveryPath: the body is  f, err := <acquire>(...); if err != nil { return ... };
+// then, before any statement containing a return, a top-level `defer f.Close()` or a top-level
+// statement that calls f.Close() outside any nested block that could be skipped (the call sits
+// in the statement itself or in the Init of an if).
+func lfClosesOnEveryPath(fd *ast.FuncDecl) bool {
+	list := fd.Body.List
+	acq := -1
+	for i, st := range list {
+		as, ok := st.(*ast.AssignStmt)
+		if !ok || len(as.Lhs) != 2 || len(as.Rhs) != 1 || lfSel(as.Lhs[0]) != "f" {
+			continue
+		}
+		if c, ok := as.Rhs[0].(*ast.CallExpr); ok {
+			switch lfSel(c.Fun) {
+			case "OpenFile", "Open", "Edit", "Create":
+				acq = i
+			}
+		}
+		if acq >= 0 {
+			break
+		}
+	}
+	if acq < 0 || acq+1 >= len(list) {
+		return false
+	}
+	// the acquisition's own error check
+	is, ok := list[acq+1].(*ast.IfStmt)
+	if !ok || is.Init != nil || is.Else != nil {
+		return false
+	}
+	if c, ok := is.Cond.(*ast.BinaryExpr); !ok || c.Op != token.NEQ || lfSel(c.X) != "err" || lfSel(c.Y) != "nil" {
+		return false
+	}
+	for _, st := range list[acq+2:] {
+		switch st := st.(type) {
+		case *ast.DeferStmt:
+			if lfSel(st.Call.Fun) == "f.Close" {
+				return true
+			}
+		case *ast.ExprStmt:
+			if c, ok := st.X.(*ast.CallExpr); ok && lfSel(c.Fun) == "f.Close" {
+				return true
+			}
+		case *ast.AssignStmt:
+			if len(lfCalls(st, "f.Close")) > 0 && !lfContainsReturn(st) {
+				return true
+			}
+		case *ast.IfStmt:
+			if st.Init != nil && len(lfCalls(st.Init, "f.Close")) > 0 {
+				return true
+			}
+		}
+		if lfContainsReturn(st) {
+			return false
+		}
+	}
+	return false
 }
 
 func lfHasDeferClose(fd *ast.FuncDecl) bool {
